@@ -16,9 +16,19 @@
 
 #include "raw_io.hh"
 
-uint32_t RawBinaryParser::read() { return *( m_cursor++ ); }
+static void check_remaining( const uint32_t* cursor, const uint32_t* end, size_t n ) {
+    // the cursor never passes m_data_end, so the difference is a valid non-negative word count
+    if ( cursor > end || n > static_cast<size_t>( end - cursor ) )
+    { throw std::runtime_error( "Unexpected end of raw data" ); }
+}
+
+uint32_t RawBinaryParser::read() {
+    check_remaining( m_cursor, m_data_end, 1 );
+    return *( m_cursor++ );
+}
 
 std::vector<uint32_t> RawBinaryParser::read( size_t n ) {
+    check_remaining( m_cursor, m_data_end, n );
     std::vector<uint32_t> data( m_cursor, m_cursor + n );
     m_cursor += n;
     return data;
@@ -28,9 +38,15 @@ void RawBinaryParser::read( size_t n, uint32_t* data ) {
     for ( size_t i = 0; i < n; i++ ) { data[i] = read(); }
 }
 
-void RawBinaryParser::skip() { m_cursor++; }
+void RawBinaryParser::skip() {
+    check_remaining( m_cursor, m_data_end, 1 );
+    m_cursor++;
+}
 
-void RawBinaryParser::skip( size_t n ) { m_cursor += n; }
+void RawBinaryParser::skip( size_t n ) {
+    check_remaining( m_cursor, m_data_end, n );
+    m_cursor += n;
+}
 
 void RawBinaryParser::skip_event() {
     auto flag = read();
@@ -232,6 +248,9 @@ uint32_t RawBinaryParser::read_ROB( const uint32_t sub_det_id ) {
     auto rod_n_status   = read();
     auto rod_n_data     = read();
     auto rod_status_pos = read();
+
+    if ( ( rod_status_pos == 0 ? rod_n_status : rod_n_data ) > status_and_data.size() )
+    { throw std::runtime_error( "Invalid ROD status/data count" ); }
 
     if ( rod_status_pos == 0 )
         status_and_data.erase( status_and_data.begin(),
